@@ -668,11 +668,158 @@ func fieldOfType(v *types.Var, named types.Object) bool {
 	return false
 }
 
+// R06.5: the accessors hand out the value's bytes, all of them and nothing else.
+func ruleR06_5(c *Check) {
+	w := c.W
+	r := c.Rule("R06.5", "E4+E1", 8, "value accessors: Item.ValueCopy returns y.SafeCopy(dst, v) on every path and Item.Value calls fn(v), where v is item.val on the prefetched path and the slice returned by yieldItemValue otherwise; y.SafeCopy is append(a[:0], src...) (result length = len(src) whatever dst held); wherever a value is copied into a buffer obtained from Resize(n), n is the length of the copied slice (yieldItemValue's inline branch, prefetchValue)",
+		"a copy into a reused buffer that keeps the buffer's old length returns the value followed by stale bytes; a Resize shorter or longer than the value truncates it or pads it with bytes of the previous item")
+	valF := w.Field("badger.Item.val")
+	yield := w.Func("badger.Item.yieldItemValue")
+	safe := w.Func("y.SafeCopy")
+	status := w.Field("badger.Item.status")
+	// value expression allowed at node n of function f
+	isValueAt := func(f *Fn, n ast.Node, e ast.Expr) (bool, string) {
+		pref := HasGuard(w.Guards(f, n), true, func(c ast.Expr) bool {
+			be, ok := c.(*ast.BinaryExpr)
+			return ok && be.Op == token.EQL && (w.fieldOf(be.X) == status || w.fieldOf(be.Y) == status) && w.mentions(be, w.Obj("badger.prefetched"))
+		}) != nil
+		if w.fieldOf(e) == valF {
+			if pref {
+				return true, ""
+			}
+			return false, "item.val used outside the `status == prefetched` branch"
+		}
+		if id, ok := unparen(e).(*ast.Ident); ok {
+			if v, ok := w.Use(id).(*types.Var); ok {
+				for _, s := range f.Sites(selStoreVar(v)) {
+					if as, ok := s.(*ast.AssignStmt); ok && len(as.Rhs) == 1 && len(as.Lhs) == 3 && w.isCallTo(as.Rhs[0], yield) {
+						if lid, ok := as.Lhs[0].(*ast.Ident); ok && (w.Use(lid) == types.Object(v) || w.Info.Defs[lid] == types.Object(v)) {
+							if pref {
+								return false, "the prefetched branch re-reads the value"
+							}
+							return true, ""
+						}
+					}
+				}
+			}
+		}
+		return false, "the value handed out is " + short(w, e)
+	}
+	vc := w.F("badger.Item.ValueCopy")
+	n := 0
+	for _, e := range vc.allExits() {
+		rs, ok := e.Node.(*ast.ReturnStmt)
+		if !ok || len(rs.Results) != 2 {
+			continue
+		}
+		n++
+		org := w.Origin(vc, rs.Results[0])
+		call, isCall := unparen(org).(*ast.CallExpr)
+		if !isCall || !w.isCallTo(org, safe) || len(call.Args) != 2 {
+			r.Check(false, vc, "ValueCopy returns SafeCopy(dst, value)", rs, "the returned slice is "+short(w, org)+", not y.SafeCopy(dst, value)")
+			continue
+		}
+		ok, why := isValueAt(vc, rs, call.Args[1])
+		r.Check(ok, vc, "ValueCopy returns SafeCopy(dst, value)", rs, why)
+	}
+	r.Exists(n >= 2, vc, "ValueCopy exits", nil, "expected the prefetched and the direct return of ValueCopy")
+	// Item.Value: fn(v)
+	vf := w.F("badger.Item.Value")
+	var fnParam *types.Var
+	if ps := vf.Obj.Type().(*types.Signature).Params(); ps.Len() == 1 {
+		fnParam = ps.At(0)
+	}
+	n = 0
+	vf.walk(func(x ast.Node) bool {
+		call, ok := x.(*ast.CallExpr)
+		if !ok || len(call.Args) != 1 {
+			return true
+		}
+		if id, ok := unparen(call.Fun).(*ast.Ident); ok && fnParam != nil && w.Use(id) == types.Object(fnParam) {
+			n++
+			ok, why := isValueAt(vf, call, call.Args[0])
+			r.Check(ok, vf, "Value passes the value to the callback", call, why)
+		}
+		return true
+	})
+	r.Exists(n >= 2, vf, "Value callbacks", nil, "expected the prefetched and the direct callback of Item.Value")
+	// y.SafeCopy = append(a[:0], src...)
+	sc := w.F("y.SafeCopy")
+	okApp := false
+	sc.walk(func(x ast.Node) bool {
+		call, ok := x.(*ast.CallExpr)
+		if !ok || !isBuiltin(w, call, "append") || len(call.Args) != 2 || !call.Ellipsis.IsValid() {
+			return true
+		}
+		ps := sc.Obj.Type().(*types.Signature).Params()
+		if se, ok := unparen(call.Args[0]).(*ast.SliceExpr); ok && se.Low == nil && se.High != nil {
+			if v, isC := w.constInt(se.High); isC && v == 0 {
+				a, aok := unparen(se.X).(*ast.Ident)
+				s, sok := unparen(call.Args[1]).(*ast.Ident)
+				if aok && sok && w.Use(a) == types.Object(ps.At(0)) && w.Use(s) == types.Object(ps.At(1)) {
+					okApp = true
+				}
+			}
+		}
+		return true
+	})
+	r.Check(okApp, sc, "SafeCopy is append(a[:0], src...)", nil, "y.SafeCopy no longer builds its result as append(a[:0], src...)")
+	for _, e := range sc.allExits() {
+		rs, ok := e.Node.(*ast.ReturnStmt)
+		if !ok || len(rs.Results) != 1 {
+			continue
+		}
+		org := unparen(w.Origin(sc, rs.Results[0]))
+		_, isLit := org.(*ast.CompositeLit)
+		call, isCall := org.(*ast.CallExpr)
+		r.Check(isLit || (isCall && isBuiltin(w, call, "append")), sc, "SafeCopy returns the appended slice (or an empty one)", rs, "SafeCopy returns "+short(w, org))
+	}
+	// copies into resized buffers
+	resize := w.Func("y.Slice.Resize")
+	n = 0
+	for _, name := range []string{"badger.Item.yieldItemValue", "badger.Item.prefetchValue"} {
+		f := w.F(name)
+		f.walk(func(x ast.Node) bool {
+			call, ok := x.(*ast.CallExpr)
+			if !ok || !isBuiltin(w, call, "copy") || len(call.Args) != 2 {
+				return true
+			}
+			dst := unparen(w.Origin(f, call.Args[0]))
+			rc, isCall := dst.(*ast.CallExpr)
+			if !isCall || w.Callee(rc) != types.Object(resize) || len(rc.Args) != 1 {
+				return true
+			}
+			n++
+			src := types.ExprString(unparen(call.Args[1]))
+			okLen := false
+			if lc, ok := unparen(w.Origin(f, rc.Args[0])).(*ast.CallExpr); ok && isBuiltin(w, lc, "len") && len(lc.Args) == 1 {
+				okLen = types.ExprString(unparen(lc.Args[0])) == src
+			}
+			r.Check(okLen, f, "buffer resized to the length of the copied value", call, "copy("+short(w, call.Args[0])+", "+src+") into a buffer resized to "+short(w, rc.Args[0]))
+			return true
+		})
+	}
+	r.Exists(n >= 2, vc, "resized copies", nil, "expected the inline copy of yieldItemValue and the prefetch copy")
+	// prefetchValue stores the copied buffer
+	pf := w.F("badger.Item.prefetchValue")
+	for _, s := range pf.Sites(selStore(valF)) {
+		as, ok := s.(*ast.AssignStmt)
+		okv := false
+		if ok && len(as.Rhs) == 1 {
+			if rc, isCall := unparen(w.Origin(pf, as.Rhs[0])).(*ast.CallExpr); isCall && w.Callee(rc) == types.Object(resize) {
+				okv = true
+			}
+		}
+		r.Check(okv, pf, "prefetched value is the resized copy", s, "item.val is assigned something other than the buffer the value was copied into")
+	}
+}
+
 func propC06(c *Check) {
 	ruleR06_1(c)
 	ruleR06_2(c)
 	ruleR06_3(c)
 	ruleR06_4(c)
+	ruleR06_5(c)
 	ruleR15_4(c) // the entry a GC rewrite writes back carries the original's value and metadata
 }
 
